@@ -6,7 +6,7 @@
    are not modelled.  Big multiplication / division: any exact ones ([bmul_exact],
    [bdivrem_exact] = the statements of Mul.umul_spec / Div.udivrem_spec). *)
 From BigNum Require Import Base BaseLemmas X86 AddSub ShiftCore PgrLoop PgrLoopProofs Pow PowProofs
-  Gcd SpecRoots RootsMath Roots RootsProofs Extracted InstAddSub InstPgr.
+  Gcd SpecRoots RootsMath Roots RootsProofs Div PgrInst Extracted InstAddSub InstPgr.
 Open Scope Z_scope.
 
 (* the executable spec [zroot] is THE floor root: r^n <= x < (r+1)^n, and that r is unique *)
@@ -96,6 +96,19 @@ End Stmt.
 Print Assumptions C11_roots.
 Print Assumptions C11_guess_independent.
 Print Assumptions C11_bigint.
+
+
+(* CLOSED instance: sqrt calls only the division; at the real division model Div.udivrem (C03)
+   no hypothesis is left (cbrt / nth_root also multiply: they keep [bmul_exact] until Mul is merged) *)
+Theorem C11_sqrt_closed : forall gf, guess_ok gf ->
+  (forall x, canon x -> usqrt pgr_bdivrem addsub pgr_roots gf x = Ret (enc (zroot 2 (val x)))) /\
+  (forall x, icanon x -> isqrt pgr_bdivrem addsub pgr_roots gf x = omap ienc (spec_isqrt (ival x))).
+Proof.
+  intros gf Hg. split; intros.
+  - apply usqrt_spec; auto using pgr_bdivrem_exact, addsub_params_ok, roots_params_ok.
+  - apply isqrt_spec; auto using pgr_bdivrem_exact, addsub_params_ok, roots_params_ok.
+Qed.
+Print Assumptions C11_sqrt_closed.
 
 (* the no_std guess is a legal guess *)
 Theorem C11_guess_nostd_ok : forall x n mb, 0 <= mb -> canon (guess_nostd x n mb) /\ 1 <= val (guess_nostd x n mb).
